@@ -86,10 +86,10 @@ class Impl:
         if r.split() != ["M", str(len(ma))]:
             raise tlc.MachineryError("%s driver: bad answer to M: %r" % (self.name, r[:80]))
 
-    def query(self, pairs):
+    def query(self, pairs, op="Q"):
         if not pairs:
             return []
-        r = self.call("Q " + " ".join("%d %d" % p for p in pairs)).split()
+        r = self.call(op + " " + " ".join("%d %d" % p for p in pairs)).split()
         if r[0] != "Q" or len(r) != len(pairs) + 1:
             raise tlc.MachineryError("%s driver: bad answer to Q" % self.name)
         return [int(x) for x in r[1:]]
@@ -252,7 +252,10 @@ def make_configs(ctx, rn):
         N = rng.randint(1, 64)
         c = Config(rng.randrange(64), rand_ma(rng, N, plain=rng.random() < 0.3), "full")
         for fn in [0, HYPER - 1] + [rng.randrange(HYPER) for _ in range(18)]:
-            c.items.append((rng.choice([rng.randrange(64), rng.randint(1, 63)]), fn, None))
+            hsn = rng.choice([rng.randrange(64), rng.randint(1, 63), 0])
+            c.items.append((hsn, fn, None))
+            if rng.random() < 0.3:      # same generator object, same T1R/T2/T3, another T1
+                c.items.append((hsn, (fn + rng.randint(1, 31) * 64 * SUPER) % HYPER, None))
         cfgs.append(c)
     # (3) cyclic hopping (HSN 0): every N, 2 N consecutive frames, incl. the end of the hyperframe
     for N in range(1, 65):
@@ -262,6 +265,11 @@ def make_configs(ctx, rn):
             start = rng.choice([0, HYPER - 2 * N, rng.randrange(HYPER - 2 * N)])
             for fn in range(start, start + 2 * N):
                 c.items.append((0, fn, None))
+            # the same object is asked again 64 k superframes away (a channel that stays
+            # configured for a long time): the answer must not depend on what was asked before
+            for fn in rng.sample(range(start, start + 2 * N), min(2 * N, 6)):
+                for k in rng.sample(range(1, 32), 3):
+                    c.items.append((0, (fn + k * 64 * SUPER) % HYPER, None))
             cfgs.append(c)
     # (4) the final modulo: every (N, S, MAIO) combination (thorough) / 4 MAIO per N (quick),
     #     S reached through a witness of the direct arm (M' = S < N)
@@ -390,11 +398,14 @@ def body(ctx, exe):
     py, fw = start_impls(exe)
     got = {"python": [None] * len(cfgs), "firmware": [None] * len(cfgs)}
     dead = set()
+    fresh = [None] * len(cfgs)      # python, one new HoppingParams object per question
     for impl in (py, fw):
         try:
             for ci, c in enumerate(cfgs):
                 impl.set_ma(c.maio, c.ma)
                 got[impl.name][ci] = impl.query([(h, f) for (h, f, _) in c.items])
+                if impl.name == "python":
+                    fresh[ci] = impl.query([(h, f) for (h, f, _) in c.items], op="F")
         except Died as e:
             report_died(ctx, e)
             dead.add(impl.name)
@@ -436,6 +447,12 @@ def body(ctx, exe):
                               % (name, res[name], mai, want, hsn, c.maio, N, fn, mp, tp, branch),
                               dict(hsn=hsn, maio=c.maio, ma=c.ma, fn=fn, got=res[name], want=want, mai=mai,
                                    branch=branch, Mprime=mp, Tprime=tp, impl=name))
+        if fresh[ci] is not None and fresh[ci][ii] != want:
+            ctx.violation(signature("python", branch, fresh[ci][ii]),
+                          "python (new object) selects ARFCN %d, the standard MA[MAI=%d] = %d for HSN=%d MAIO=%d N=%d FN=%d (%s)"
+                          % (fresh[ci][ii], mai, want, hsn, c.maio, N, fn, branch),
+                          dict(hsn=hsn, maio=c.maio, ma=c.ma, fn=fn, got=fresh[ci][ii], want=want, mai=mai,
+                               branch=branch, impl="python", fresh_object=True))
         if len(res) == 2 and res["python"] != res["firmware"]:
             disagree += 1
         if len(ctx.samples) < 3 and branch != "direct":
